@@ -32,6 +32,20 @@ impl MergeFunction for LoggingConcat {
 }
 
 pub fn gen_sources(rng: &mut Rng) -> Vec<Vec<(Vec<u8>, Vec<u8>)>> {
+    // now and then more than 256 sources sharing a few keys (source positions beyond one byte)
+    if rng.chance(1, 60) {
+        let k = rng.range(257, 300) as usize;
+        let keys: Vec<Vec<u8>> = vec![vec![1], vec![2, 0], vec![2, 1]];
+        return (0..k).map(|i| {
+            let mut es = Vec::new();
+            for (j, key) in keys.iter().enumerate() {
+                if (i + j) % 2 == 0 || i == k - 1 || i == 0 {
+                    es.push((key.clone(), vec![(i % 251) as u8, (i / 251) as u8]));
+                }
+            }
+            es
+        }).collect();
+    }
     let k = match rng.below(10) { 0 => 0, 1 => 1, _ => rng.range(2, 8) as usize };
     let pattern = rng.below(5);
     let pool: Vec<Vec<u8>> = {
